@@ -704,6 +704,10 @@ func (db *RockDB) SetRange(ts int64, rawKey []byte, offset int, value []byte) (i
 		// nothing is changed, the reply is the current length as in redis
 		return db.kvStrLenForWrite(ts, rawKey)
 	}
+	if offset < 0 || offset > MaxValueSize {
+		// a negative offset, or one so large that the sum below wraps around
+		return 0, errValueSize
+	}
 	if len(value)+offset > MaxValueSize {
 		return 0, errValueSize
 	}
